@@ -272,6 +272,7 @@ impl Report {
                 return;
             }
         }
+        VIOLATION_PRINTED.store(true, Ordering::Relaxed);
         println!("VIOLATION property={} replay={}", self.prop, replay);
         println!("  signature: {}", v.sig);
         for l in v.detail.lines().take(40) {
@@ -522,6 +523,7 @@ fn first_hard(rep: &Report, out: Outcome) -> Option<Violation> {
 }
 
 pub static PROGRESS: std::sync::atomic::AtomicU64 = std::sync::atomic::AtomicU64::new(0);
+pub static VIOLATION_PRINTED: AtomicBool = AtomicBool::new(false);
 
 /// Hang watchdog: if no case completes for `limit`, the run is inconclusive (exit 2), never a violation.
 pub fn spawn_watchdog(limit: std::time::Duration) {
@@ -535,6 +537,10 @@ pub fn spawn_watchdog(limit: std::time::Duration) {
                 last = cur;
                 since = Instant::now();
             } else if since.elapsed() > limit {
+                if VIOLATION_PRINTED.load(Ordering::Relaxed) {
+                    println!("watchdog: no progress for {:?} while minimising an already reported violation; exiting with the violation", limit);
+                    std::process::exit(1);
+                }
                 println!("INCONCLUSIVE: no case completed for {:?} (hang in the code under test or in a child); watchdog exit", limit);
                 std::process::exit(2);
             }
@@ -591,6 +597,7 @@ pub fn panic_key(msg: &str) -> String {
 }
 
 fn guarded_check<S: Stage>(stage: &S, inp: &S::Input) -> Outcome {
+    PROGRESS.fetch_add(1, Ordering::Relaxed);
     match catch(|| stage.check(inp)) {
         Ok(o) => o,
         Err(msg) => {
